@@ -17,6 +17,7 @@ type FaultPlan struct {
 	EOFWithData bool  `json:"eof_with_data"` // the last bytes come together with io.EOF
 	TruncAt     int   `json:"trunc_at"`      // -1 none; else the source ends after this many bytes
 	FailAt      int   `json:"fail_at"`       // -1 none; else reads fail with an injected error once this many bytes were delivered
+	ErrWithData bool  `json:"err_with_data"` // the failing Read call hands over the bytes before the failure point together with the error
 }
 
 var errInjectedIO = errors.New("simio: injected read failure")
@@ -65,11 +66,17 @@ func (r *FaultyReader) Read(p []byte) (int, error) {
 	if n > rem {
 		n = rem
 	}
-	if r.plan.FailAt >= 0 && r.pos+n > r.plan.FailAt {
+	failNow := false
+	if r.plan.FailAt >= 0 && r.pos+n >= r.plan.FailAt {
 		n = r.plan.FailAt - r.pos
+		failNow = r.plan.ErrWithData
 	}
 	copy(p, r.data[r.pos:r.pos+n])
 	r.pos += n
+	if failNow {
+		r.Fired["read-error-with-data"]++
+		return n, errInjectedIO
+	}
 	if r.plan.EOFWithData && r.pos == len(r.data) {
 		r.Fired["eof-with-data"]++
 		return n, io.EOF
